@@ -5,12 +5,10 @@
 //! Contract of the private `inside_string()`: it always succeeds, yields exactly the maximal run of characters other than
 //! '"', CR and LF, and leaves the input right behind that run.
 //!
-//! STATUS: attempt.  On the tree as it is, `inside_string()` TOKENIZES the text of the literal with `any_token()` (11-way
-//! OrParser: unwind >= 12; AnyTokenOf keeps its kinds in a std HashSet: hashbrown's 16-lane group scan needs unwind >= 17 and
-//! RandomState::new is a getrandom syscall) — CBMC does not get through one `any_token()` call on a 1-character text in 15
-//! minutes, so the obligation ends UNDECIDED there.  That tokenization is also a genuine defect (finding F90:
-//! `PRINT "aaaaaaaaaaaaaaaaaaaaaaaaaaaaaaaaaaaaaaaaa"` — 41 letters inside the quotes — is rejected with IdentifierTooLong).
-//! With the proposed repair (read the text character by character, PROPOSED_FINDINGS.md) the obligation is discharged.
+//! HISTORY: until defect 58 was repaired, `inside_string()` TOKENIZED the text of the literal with `any_token()` (11-way OrParser,
+//! AnyTokenOf keeps its kinds in a std HashSet) — CBMC did not get through one `any_token()` call on a 1-character text in 15
+//! minutes, the obligation was an `attempt`, and the tokenization was itself the defect (finding F90: 41 letters between the
+//! quotes were rejected with IdentifierTooLong).  Since the repair (the text is read character by character) it is discharged.
 
 fn make_input<const N: usize>(b: &[u8; N]) -> StringView {
     let s = unsafe { std::str::from_utf8_unchecked(&b[..]) };
@@ -60,7 +58,18 @@ fn inside_body<const N: usize>() -> ([u8; N], usize) {
     (b, used)
 }
 
-//# harness inside_string_2 tier=thorough label=bounded(2-chars,ascii) props=C10 fn=rusty_parser/src/expr/string_literal.rs::inside_string timeout=300 attempt=1
+//# harness inside_string_1 tier=quick label=bounded(1-char,ascii) props=C10 fn=rusty_parser/src/expr/string_literal.rs::inside_string timeout=300
+harness!(inside_string_1, 3, {
+    let (_, u0) = inside_body::<0>();
+    assert!(u0 == 0);
+    let (b, used) = inside_body::<1>();
+    reach!(used == 0 && b[0] == b'"');
+    reach!(used == 0 && b[0] == b'\n');
+    reach!(used == 1 && b[0] == b'\\');
+    reach!(used == 1 && b[0] == b'a');
+});
+
+//# harness inside_string_2 tier=thorough label=bounded(2-chars,ascii) props=C10 fn=rusty_parser/src/expr/string_literal.rs::inside_string timeout=600
 harness!(inside_string_2, 3, {
     let (_, u0) = inside_body::<0>();
     assert!(u0 == 0);
